@@ -463,4 +463,22 @@ theorem progAgreeB_sound (gs : Grids) (p : List Stmt) :
     rw [ho, hn] at h2
     exact h2
 
+theorem progDisagreeAt_none_iff (gs : Grids) (p : List Stmt) :
+    ∀ so sn i, progDisagreeAt gs so sn p i = none ↔ progAgreeB gs so sn p = true := by
+  induction p with
+  | nil => intro so sn i; simp [progDisagreeAt, progAgreeB]
+  | cons st rest ih =>
+    intro so sn i
+    simp only [progDisagreeAt, progAgreeB]
+    cases hs : stmtAgreeB gs so sn st with
+    | false => simp
+    | true =>
+      simp only [if_true, Bool.true_and]
+      cases stepO gs so st with
+      | error e => simp
+      | ok so' =>
+        cases stepN gs sn st with
+        | error e => simp
+        | ok sn' => exact ih so' sn' (i + 1)
+
 end HcipyVerif.FieldProg
